@@ -88,6 +88,13 @@ CLAIMS["C13"] = {
     "technique": "static analysis: CFG dominance of acceptance guards over returns, provenance of the tolerance argument, parallel-index agreement, duplicate-operand lint",
 }
 
+CLAIMS["C12"] = {
+    "decides": "Type 2 / Type 1 operator tables are injective with inverses built from the same item; every operator has a handler on the drawing extractor; the generalizer covers every path operator and pass 6 leaves only real operators; operand widths agree between extractor, generalizer and the Type 2 spec; the stack limit flows consistently (513 / 48 / callers / merge guard / blend guard / CFF2->CFF threshold / depth sampled after push); point-removing rewrites are dominated by `not preserveTopology` and lineto merging is only the alternating h/v form; desubroutinize clears every Private's subrs and the global subrs, remove_hints prunes subroutines; integer operand codecs agree (shared with C15).",
+    "design_ref": "DESIGN.md §3.3 F9, §3.6 F24, §4 C12",
+    "note": "Trusted: constant folder for the operator tables; guard extraction. Not decided: that peephole rewrites preserve the path (needs execution).",
+    "technique": "static analysis: dispatch exhaustiveness over literal operator tables, constant flow of the stack limit, guard dominance for topology-changing statements",
+}
+
 _PENDING = "check not built yet in this round (planned structural clauses in DESIGN.md §4); not claimed until its check exists"
 NOT_APPLICABLE = {
     "C05": "numeric equality of outlines/advances with independent rasterisers at every location: runtime values only; no structural clause that is a necessary condition and survives refactoring (DESIGN §4 C05)",
@@ -95,5 +102,5 @@ NOT_APPLICABLE = {
     "C14": "geometric equality through pen adapters over all call sequences: adapters may legally buffer/merge/re-emit calls, so no forwarding-shape rule is both necessary and refactoring-stable (DESIGN §4 C14)",
     "C18": "rendering equivalence of merged fonts: only weak structural facts (first-writer-wins cmap guard) exist, not enough for a necessary-condition clause (DESIGN §4 C18)",
 }
-for _p in ("C10", "C12", "C19"):
+for _p in ("C10", "C19"):
     NOT_APPLICABLE[_p] = _PENDING
